@@ -1,6 +1,7 @@
 package main
 
 import (
+	"bytes"
 	"sort"
 
 	"github.com/couchbase/moss"
@@ -114,6 +115,13 @@ func readsSx(ss moss.Snapshot, universe [][]byte, depth int) sx {
 			gets = append(gets, L(k, errSx(err)))
 		} else {
 			gets = append(gets, L(k, v))
+			if retainHook != nil {
+				retainHook("Snapshot.Get", v)
+			}
+		}
+		v2, err2 := ss.Get(k, moss.ReadOptions{NoCopyValue: true})
+		if (err == nil) != (err2 == nil) || !bytes.Equal(v, v2) || (v == nil) != (v2 == nil) {
+			gets = append(gets, L([]byte("!NoCopyValue-get-differs"), cp(v2)))
 		}
 	}
 	iterS := []sx{"iter"}
@@ -136,6 +144,19 @@ func readsSx(ss moss.Snapshot, universe [][]byte, depth int) sx {
 					iterS = append(iterS, errSx(err))
 				}
 				break
+			}
+		}
+		// seek back to the first entry (the iterator re-creates its cursors) and look at it
+		// again; a wrong answer is reported as an extra entry, which no model iteration has
+		if len(iterS) > 1 {
+			if first, ok := iterS[1].([]sx); ok && len(first) == 2 {
+				fk, _ := first[0].([]byte)
+				err := it.SeekTo(fk)
+				k, v, err2 := it.Current()
+				fv, _ := first[1].([]byte)
+				if err != nil || err2 != nil || !bytes.Equal(k, fk) || !bytes.Equal(v, fv) || (v == nil) != (fv == nil) {
+					iterS = append(iterS, L([]byte("!seek-back-to-first-entry-differs"), cp(k), cp(v), errSx(err), errSx(err2)))
+				}
 			}
 		}
 		it.Close()
